@@ -965,7 +965,7 @@ func EscapeTagKey(v string) string {
 	if v == "" {
 		return ""
 	}
-	escape := (v[0] < 'a' && v[0] > 'z') && (v[0] < 'A' && v[0] > 'Z') && v[0] != '_' && v[0] != '#' && v[0] != '@'
+	escape := (v[0] < 'a' || v[0] > 'z') && (v[0] < 'A' || v[0] > 'Z') && v[0] != '#' && v[0] != '@'
 	if !escape {
 		for _, r := range v[1:] {
 			if escape = !isValidSymbolRune(r); escape {
@@ -982,9 +982,9 @@ func EscapeTagKey(v string) string {
 
 func EscapeTagValue(v string) string {
 	if v == "" {
-		return ""
+		return `""`
 	}
-	escape := (v[0] < 'a' && v[0] > 'z') && (v[0] < 'A' && v[0] > 'Z') && v[0] != '_'
+	escape := (v[0] < 'a' || v[0] > 'z') && (v[0] < 'A' || v[0] > 'Z')
 	if !escape {
 		for _, r := range v[1:] {
 			if escape = !isValidSymbolRune(r); escape {
